@@ -109,8 +109,14 @@ Edge(o) ==      \* an access of o.len bytes at <<base, delta>>: succeeds iff it 
   /\ Rec(o, [ok |-> InBounds(o.base, o.delta, o.len), prev |-> 0], pages)
   /\ UNCHANGED <<pages, cell, ntag>>
 
+ViewAppend(o) ==   \* the host appends to a view (api.Memory.Read) that ends at the current size: the view is disconnected by
+                   \* the append, the memory - also the part that is not exposed yet - is untouched
+  /\ o.op = "happend"
+  /\ Rec(o, [ok |-> TRUE, prev |-> 0], pages)
+  /\ UNCHANGED <<pages, cell, ntag>>
+
 Step == /\ accepted /\ ~fin /\ Len(hist) < MaxOps
-        /\ \E o \in Ops : Grow(o) \/ Size(o) \/ Put(o) \/ Get(o) \/ Edge(o)
+        /\ \E o \in Ops : Grow(o) \/ Size(o) \/ Put(o) \/ Get(o) \/ Edge(o) \/ ViewAppend(o)
         /\ UNCHANGED <<cfg, accepted, fin>>
 
 Finish == /\ ~fin /\ (Len(hist) = MaxOps \/ ~accepted)
